@@ -109,12 +109,12 @@ func (t *Term) isConst() bool { return t.op == OConst }
 
 // Ctx owns hash-consing tables. One per worker.
 type Ctx struct {
-	tab    map[string]*Term
-	nextID int
-	vars   []*Term // declared vars in creation order
-	ufs    map[string]ufSig
-	tt, ff *Term
-	byteConsts [256]*Term
+	tab           map[string]*Term
+	nextID        int
+	vars          []*Term // declared vars in creation order
+	ufs           map[string]ufSig
+	tt, ff        *Term
+	byteConsts    [256]*Term
 	zero64, one64 *Term
 }
 
